@@ -592,9 +592,13 @@ Definition pbt_on_result (p : pbt_prm) (s : pbt) (i : Z) (r : Q * Q * Z) : pbt *
         let tr1 := pbt_update (pb_trials s) i (fun t => {| pt_id := pt_id t; pt_score := Some score; pt_last := cost; pt_stopped := pt_stopped t |}) in
         let '(lower, upper) := quantiles (pp_qf p) tr1 in
         if mem_Z i lower then
-          let j := if mem_Z choice upper then choice else hd i upper in
-          ({| pb_trials := pbt_update tr1 i (fun t => {| pt_id := pt_id t; pt_score := pt_score t; pt_last := pt_last t; pt_stopped := true |});
-              pb_stack := j :: pb_stack s |}, STOP, Some j)
+          match upper with
+          | [] => ({| pb_trials := tr1; pb_stack := pb_stack s |}, CONTINUE, None)  (* cannot happen: |upper| = |lower| *)
+          | u :: _ =>
+              let j := if mem_Z choice upper then choice else u in
+              ({| pb_trials := pbt_update tr1 i (fun t => {| pt_id := pt_id t; pt_score := pt_score t; pt_last := pt_last t; pt_stopped := true |});
+                  pb_stack := j :: pb_stack s |}, STOP, Some j)
+          end
         else ({| pb_trials := tr1; pb_stack := pb_stack s |}, CONTINUE, None)
   end.
 
